@@ -464,12 +464,24 @@ func (l *Lexer) RescanAsDate(pos Position) Token {
 }
 
 func (l *Lexer) scanText() Token {
+	return l.scanTextUpTo(true)
+}
+
+// RescanAsNote re-reads the input from pos as the note of a transaction
+// header: the text after the first "|", up to a comment or the end of the
+// line. Further "|" belong to the note.
+func (l *Lexer) RescanAsNote(pos Position) Token {
+	l.rescanFrom(pos)
+	return l.scanTextUpTo(false)
+}
+
+func (l *Lexer) scanTextUpTo(stopAtPipe bool) Token {
 	start := l.pos
 	startPos := l.position()
 
 	for l.pos < len(l.input) {
 		ch := l.peek()
-		if l.atLineEnd() || ch == ';' || ch == '|' {
+		if l.atLineEnd() || ch == ';' || (ch == '|' && stopAtPipe) {
 			break
 		}
 		l.advance()
